@@ -810,6 +810,13 @@ inductive RhsR where
   | array (ys : List Rat)
   | field (cells : List (Option Ref)) (j : Nat)
 
+/-- the operand values for a column of `n` entries: `x op other` broadcasts `other`; a `_FieldView`
+operand is converted by `np.asarray(other)` = its `flatten()` on the heap AS IT IS NOW -/
+def RhsR.eval (heap : List Arr) (n : Nat) : RhsR → Option (List Rat)
+  | .scalar c => some (List.replicate n c)
+  | .array ys => broadcastTo n ys
+  | .field wcells jw => broadcastTo n (flattenField heap wcells jw)
+
 /-- `_apply_op` with a general right operand: cells are visited in order and written through the
 reference; the first cell whose operand does not broadcast (ValueError) — or, for `**` with a
 negative Python-int exponent, the first non-empty int64 cell (ValueError) — stops the loop and
@@ -824,11 +831,7 @@ def applyGen (j : Nat) (g : Rat → Rat → Rat) (negIntPow : Bool) (rhs : RhsR)
       | some a =>
         -- "Integers to negative integer powers are not allowed."
         if negIntPow && a.isInt && a.nrows != 0 then (heap, some .valueError) else
-        let ys? : Option (List Rat) := match rhs with
-          | .scalar c => some (List.replicate a.nrows c)
-          | .array ys => broadcastTo a.nrows ys
-          | .field wcells jw => broadcastTo a.nrows (flattenField heap wcells jw)   -- np.asarray(other) now
-        match ys? with
+        match rhs.eval heap a.nrows with
         | none => (heap, some .valueError)       -- operands could not be broadcast together / into shape
         | some ys =>
           applyGen j g negIntPow rhs (heap.set r (a.setCol j (List.zipWith g (a.col j) ys))) cs
@@ -977,6 +980,40 @@ def opMetaSet (s : State) (vid : Nat) (k : String) (x : Int) : State × Res :=
   | .ok v => match s.metas[v.mref]? with
     | some d => ({ s with metas := s.metas.set v.mref (dictSet d k x) }, .none)
     | none => (s, .err .badHandle)
+
+/-! ### property setters — NOT in the operation alphabet
+
+The property's statement enumerates the operations it quantifies over (creation, cell / slice /
+fancy assignment and retrieval, field arithmetic, flatten / set_flattened, add / remove fields, copy,
+slicing); assigning to the `shape`, `fields`, `units`, `name` properties is not among them, so the
+setters are modelled here OUTSIDE `Op`/`step` (Props/C11.lean records which of them would break the
+invariant).  `name` is not part of the modelled state. -/
+
+/-- `v.fields = value` → `self._fields = validate_fields(value)`: duplicates are rejected, the
+length is NOT compared with the columns of the cell arrays -/
+def opSetFieldsAttr (s : State) (vid : Nat) (fs : List String) : State × Res :=
+  match s.getVec vid with
+  | .error e => (s, .err e)
+  | .ok v => match validateFields fs with
+    | .error e => (s, .err e)
+    | .ok fs => (s.putVec vid { v with fields := fs }, .none)
+
+/-- `v.units = value` → `validate_vector_units(value, self.num_fields)` -/
+def opSetUnitsAttr (s : State) (vid : Nat) (us : Option (List String)) : State × Res :=
+  match s.getVec vid with
+  | .error e => (s, .err e)
+  | .ok v => match validateUnits us v.fields.length with
+    | .error e => (s, .err e)
+    | .ok us => (s.putVec vid { v with units := us }, .none)
+
+/-- `v.shape = value` → `self._shape = validate_shape(value)`: only positivity is checked, `_data`
+stays as it is -/
+def opSetShapeAttr (s : State) (vid : Nat) (shape : List Int) : State × Res :=
+  match s.getVec vid with
+  | .error e => (s, .err e)
+  | .ok v => match validateShape shape with
+    | .error e => (s, .err e)
+    | .ok sh => (s.putVec vid { v with shape := sh }, .none)
 
 /-! ### the machine -/
 
